@@ -632,7 +632,18 @@ func errorProvenance(v ssa.Value, errT *types.Named, layer map[*ssa.Function]boo
 		}
 		return false, "an error from outside the parse layer: " + calleeName(x)
 	case *ssa.UnOp:
-		// a named result read back
+		// a local variable read back (a named result, a variable shared with a closure): every value ever stored into
+		// the variable - by the function or by the closures that capture it - must qualify; unset, it is nil
+		if x.Op == token.MUL {
+			if vals, ok := cellStores(x.X); ok {
+				for _, sv := range vals {
+					if ok2, why := errorProvenance(sv, errT, layer, seen); !ok2 {
+						return false, "a variable that is set to " + why
+					}
+				}
+				return true, ""
+			}
+		}
 		return false, "a loaded value"
 	case *ssa.Parameter:
 		// an error handed in by the caller (a helper parameterised by the error to report): fine when every call
@@ -831,4 +842,78 @@ func shortSideFails(lenCall *ssa.Call, cmp *ssa.BinOp) string {
 		return "no branch"
 	}
 	return ""
+}
+
+
+// cellStores returns every value stored into a local variable cell (an Alloc of the function, or the free variable
+// through which a closure sees such an Alloc), by the function itself and by every closure that captures the cell. ok
+// is false when the cell's address is used for anything but loads, stores and being captured.
+func cellStores(cell ssa.Value) ([]ssa.Value, bool) {
+	// find the Alloc behind a free variable
+	if fv, isFV := cell.(*ssa.FreeVar); isFV {
+		clo := fv.Parent()
+		idx := -1
+		for i, f := range clo.FreeVars {
+			if f == fv {
+				idx = i
+			}
+		}
+		parent := clo.Parent()
+		if parent == nil || idx < 0 {
+			return nil, false
+		}
+		var found ssa.Value
+		for _, b := range parent.Blocks {
+			for _, ins := range b.Instrs {
+				if mc, ok := ins.(*ssa.MakeClosure); ok && mc.Fn == ssa.Value(clo) && idx < len(mc.Bindings) {
+					found = mc.Bindings[idx]
+				}
+			}
+		}
+		if found == nil {
+			return nil, false
+		}
+		cell = found
+	}
+	al, ok := cell.(*ssa.Alloc)
+	if !ok || al.Referrers() == nil {
+		return nil, false
+	}
+	var vals []ssa.Value
+	var visit func(addr ssa.Value, refs []ssa.Instruction) bool
+	visit = func(addr ssa.Value, refs []ssa.Instruction) bool {
+		for _, r := range refs {
+			switch u := r.(type) {
+			case *ssa.Store:
+				if u.Addr != addr {
+					return false // the address itself is stored somewhere
+				}
+				vals = append(vals, u.Val)
+			case *ssa.UnOp:
+				if u.Op != token.MUL {
+					return false
+				}
+			case *ssa.DebugRef:
+			case *ssa.MakeClosure:
+				clo, _ := u.Fn.(*ssa.Function)
+				if clo == nil {
+					return false
+				}
+				for i, bnd := range u.Bindings {
+					if bnd == addr && i < len(clo.FreeVars) && clo.FreeVars[i].Referrers() != nil {
+						if !visit(clo.FreeVars[i], *clo.FreeVars[i].Referrers()) {
+							return false
+						}
+					}
+				}
+			default:
+				return false
+			}
+		}
+		return true
+	}
+	if !visit(al, *al.Referrers()) {
+		return nil, false
+	}
+	return vals, true
 }
